@@ -47,6 +47,28 @@ def build_queries(facts):
         a, b = r.choice(rare), r.choice(common)[: r.choice([1, 2, 2, 3])]
         if b != "to":
             q += ["%s %s" % (b, a), "%s %s" % (a, b)]
+    # long phrases (7-14 words; no shipped fact has more than 6 search words): the words of a fact's description, the words of two
+    # facts one after the other, a fact's words behind a run of common words, a fact's words twice. Anything that bounds, truncates or
+    # summarises the phrase by what the index holds shows only past the longest stored entry (seed C14-g)
+    import re
+    descs = []
+    for f in ty:
+        ws = [w for w in re.sub(r"[^A-Za-z0-9°' ]", " ", f.get("description") or "").lower().split() if w != "to" and not w[0].isdigit()]
+        if len(ws) >= 7:
+            descs.append(" ".join(ws[:14]))
+    r.shuffle(descs)
+    q += descs[:120]
+    for _ in range(120):
+        a, b = r.choice(ty)["tokens"], r.choice(ty)["tokens"]
+        k = r.choice([0, 1, 2])
+        if k == 0:
+            ws = list(a) + list(b) + (list(r.choice(ty)["tokens"]) if len(a) + len(b) < 7 else [])
+        elif k == 1:
+            ws = [r.choice(common) for _ in range(r.randint(5, 8))] + list(a)
+        else:
+            ws = list(a) * (1 + 7 // len(a))
+        if len(ws) >= 7:
+            q.append(" ".join(ws[:14]))
     seen, out = set(), []
     for x in q:
         if x not in seen:
